@@ -165,7 +165,14 @@ TraceEnd ==
      /\ br' = C
   /\ UNCHANGED hist
 
-TNext == TraceInitEv \/ TraceBlockMsg \/ TraceHashes \/ TracePubkey \/ TraceDeposits \/ TraceProcess \/ TraceReplace
+TraceReimport ==
+  /\ IsEvent("reimport")
+  /\ LET C == StateFrom(Ev.st) IN
+     /\ Chk(\A f \in TopFields : br[f] = C[f], "REIMPORT-MISMATCH", { << f, br[f], C[f] >> : f \in { g \in TopFields : br[g] # C[g] } })
+     /\ br' = C
+  /\ UNCHANGED hist
+
+TNext == TraceReimport \/ TraceInitEv \/ TraceBlockMsg \/ TraceHashes \/ TracePubkey \/ TraceDeposits \/ TraceProcess \/ TraceReplace
          \/ TraceFinalize \/ TraceApprove \/ TraceOther \/ TraceEnd
 
 Reached == PrintT(<<"TRACE_REACHED", TLCGet("stats").diameter - 1, Len(Trace)>>)
@@ -184,6 +191,6 @@ ParamsSafeInv == ParamsSafe(br.params)
 QueueOk == QueueSane(br)
 \* C05 status edges (action property over the observed withdrawal table)
 EdgesOk == [][\A id \in DOMAIN br'.wd : Edge(WdOf(br, id).status, br'.wd[id].status) \/ Trace[l].ev = "init"]_vars
-TerminalAbsorbing == [][\A id \in DOMAIN br.wd : (br.wd[id].status \in Terminal /\ Trace[l].ev # "init") => WdOf(br', id).status = br.wd[id].status]_vars
-HashesAppendOnly == [][Trace[l].ev # "init" => \A h \in DOMAIN br.hashes : h \in DOMAIN br'.hashes /\ br'.hashes[h] = br.hashes[h]]_vars
+TerminalAbsorbing == [][\A id \in DOMAIN br.wd : (br.wd[id].status \in Terminal /\ Trace[l].ev \notin {"init", "reimport"}) => WdOf(br', id).status = br.wd[id].status]_vars
+HashesAppendOnly == [][Trace[l].ev \notin {"init", "reimport"} => \A h \in DOMAIN br.hashes : h \in DOMAIN br'.hashes /\ br'.hashes[h] = br.hashes[h]]_vars
 =============================================================================
